@@ -208,7 +208,9 @@ def _known_lists():
         return m.group(1)
     vals = re.findall(r'"([^"]*)"', body("identity_validators"))
     benign = re.findall(r'\(\s*"([^"]*)"\s*,\s*"([^"]*)"\s*,\s*"([^"]*)"\s*\)', body("benign_guard"))
-    return {"validators": vals, "benign_guard": [(o, m) for _c, o, m in benign]}
+    bfit = re.findall(r'\(\s*"([^"]*)"\s*,\s*"([^"]*)"\s*,\s*"([^"]*)"\s*\)', body("benign_fit"))
+    return {"validators": vals, "benign_guard": [(o, m) for _c, o, m in benign],
+            "benign_fit": [list(x) for x in bfit]}
 
 
 # ------------------------------------------------------------------------------------------------
@@ -421,6 +423,9 @@ def gen_cases(rng, tier):
         cases.append(dict(kind="guard_static", benign=benign(d), **d))
     for d in mut:
         cases.append(dict(kind="mut_static", **d))
+    for d in classtable.fit_deviations(t):
+        cases.append(dict(kind="fit_static", benign=[d["owner"], d["returns"], d["flag"]] in known["benign_fit"]
+                          and not d["early"], **d))
     benign_cm = set((d["cls"], d["method"]) for d in guard if benign(d))
     # dynamic per-class cases: the driver decides what is importable; cases carry module + name
     for k in sorted(t.rows, key=lambda k: t.rows[k]["key"]):
@@ -1178,7 +1183,7 @@ def _run_hist(case):
 
 def run_impl(case):
     k = case["kind"]
-    if k in ("ctor_static", "guard_static", "mut_static"):
+    if k in ("ctor_static", "guard_static", "mut_static", "fit_static"):
         return {"static": True}
     if k.startswith("tree_"):
         try:
@@ -1216,6 +1221,12 @@ def oracle(case, out):
     if k == "guard_static":
         return "guard-not-first: %s.%s (body of %s): %s" % (case["cls"], case["method"], case["owner"],
                                                             case["what"])
+    if k == "fit_static":
+        if case.get("benign"):
+            return None
+        return "fit-contract: %s.fit (body of %s): completing paths return %s, fitted flag %s%s" % (
+            case["cls"], case["owner"], case["returns"], case["flag"],
+            ", and the flag is set before the end of fit" if case["early"] else "")
     if k == "mut_static":
         return "param-reassigned: %s.%s reaches code of %s assigning self.%s" % (
             case["cls"], case["method"], case["owner"], case["param"])
@@ -1589,6 +1600,9 @@ def coq_model_term(case):
     if k in ("ctor_static", "p_ctor"):
         return ("option_map (fun r => (r_key r, r_init r)) (SkV.C04.Table.lookup_row "
                 "SkV.C04.Gen.class_table %s)" % cstr(case["cls"]))
+    if k == "fit_static":
+        return ("option_map (fun r => r_fit r) (SkV.C04.Table.lookup_row SkV.C04.Gen.class_table %s)"
+                % cstr(case["cls"]))
     if k in ("guard_static", "p_apply", "mut_static", "p_fit"):
         return ("option_map (fun r => (r_methods r, r_mutates r)) (SkV.C04.Table.lookup_row "
                 "SkV.C04.Gen.class_table %s)" % cstr(case["cls"]))
